@@ -164,9 +164,12 @@ theorem C13_tables_wf (t : Ty) :
 
 /-! ## the generic codec -/
 
-/-- **Escaping is lossless**: `unescape (escape t) = t` for every byte string `t` — all text content, including the
-markup characters `< > & ' "`, leading / trailing white space and non-ASCII. -/
-theorem C13_unescape_escape (t : Bytes) : unescape (escape t) = some t := unescape_escape t
+/-- **Escaping is lossless**: for every byte string `t` — all text content, including the markup characters
+`< > & ' "`, carriage returns, leading / trailing white space and non-ASCII — `unescape` (quick-xml, as the
+deserialiser applies it) undoes both quick-xml's `escape` (attribute values) and `xml/ser.rs::text`
+(`escapeText` = `escape`, then CR as `&#13;`), which writes every text event. -/
+theorem C13_unescape_escape (t : Bytes) : unescape (escape t) = some t ∧ unescape (escapeText t) = some t :=
+  ⟨unescape_escape t, unescape_escapeText t⟩
 
 /-- **Round trip, generic** (by mutual structural induction on the schema; no bound on sizes, depths or list
 lengths). For every well-formed schema `s` and every value `v` of it in normal form (`Fits`), decoding the
@@ -221,10 +224,10 @@ theorem C13_bucket_location_roundtrip (X : Ext) (tag : Bytes) (ns : Option Bytes
     decodeDoc X (.location tag) s (encodeDoc (.location tag ns) s (.struct [.absent])) = .ok (.struct [.absent]) := by
   constructor
   · intro b hb hv
-    have he : escape b ≠ [] := fun h => hb (escape_eq_nil.mp h)
+    have he : escapeText b ≠ [] := fun h => hb (escapeText_eq_nil.mp h)
     have hne : ∀ x : Bytes, x ≠ [] → textEv x = [.text x] := fun x hx => by simp [textEv, hx]
     simp only [decodeDoc, encodeDoc, hne _ he, List.cons_append, List.nil_append, List.length_cons, List.length_nil]
-    simp only [forEach, skipText, if_true, FVal.isAbsent, textOf, decodeStr_escape (utf8Valid_escape hv), expectEnd,
+    simp only [forEach, skipText, if_true, FVal.isAbsent, textOf, decodeStr_escapeText hv, expectEnd,
       expectEof]
     cases b with
     | nil => exact absurd rfl hb
